@@ -81,7 +81,8 @@ Proof.
   destruct f; try discriminate; destruct c; try discriminate; unfold step2; simpl; unfold pk_set, fk_set; simpl;
     repeat match goal with
            | |- context [if ?b then _ else _] => destruct b eqn:?; simpl
-           end; try reflexivity; try discriminate.
+           end; try reflexivity; try discriminate;
+    unfold pk_set, fk_set in *; simpl in *; congruence.
 Qed.
 
 Lemma run_cons2 : forall cls st a b l,
@@ -180,10 +181,20 @@ Proof.
   - destruct (step cls st x); [eapply IH; eauto | discriminate].
 Qed.
 
-(* programs without once-only conflicts are accepted: flags, columns, period_for and unique never raise *)
+(* temporary, with_system_versioning, if_not_exists, period_for and unique never raise *)
 Lemma step_never_fails : forall cls st c,
   match c with
-  | KTemporary | KUnlogged | KSysVer | KIfNotExists | KPeriodFor _ _ _ | KUnique _ => exists s, step cls st c = Ok s
+  | KTemporary | KSysVer | KIfNotExists | KPeriodFor _ _ _ | KUnique _ => exists s, step cls st c = Ok s
   | _ => True
   end.
 Proof. intros cls [] []; simpl; eauto. Qed.
+
+(* a class whose unlogged() raises: an accepted program does not contain the call *)
+Lemma accepted_no_unlogged : forall cls calls st st', rejects_unlogged cls = true -> run cls st calls = Ok st' ->
+  existsb is_call_unlogged calls = false.
+Proof.
+  induction calls as [|c r IH]; intros st st' Hv H; [reflexivity|].
+  simpl in H. destruct (step cls st c) as [s1|] eqn:E; [|discriminate].
+  pose proof (IH _ _ Hv H) as I.
+  destruct c; simpl; auto. destruct st. simpl in E. rewrite Hv in E. discriminate.
+Qed.
